@@ -354,6 +354,7 @@ pub struct Excl {
 	pub zero_clock_speed: bool,
 	pub bad_slice: bool,
 	pub bad_loop: bool,
+	pub small: bool,
 	pub hits: std::collections::BTreeMap<String, u64>,
 }
 
@@ -366,6 +367,17 @@ impl Excl {
 fn gen_fx(r: &mut Rng, sr: u32, ex: &mut Excl) -> FxSpec {
 	for _ in 0..40 {
 		let f = FxSpec::gen(r, sr, 0);
+		if ex.small {
+			// reverb and long delays allocate and walk large buffers: too slow under an interpreter
+			let heavy = match &f {
+				FxSpec::Reverb { .. } => true,
+				FxSpec::Delay { time_s, inner, .. } => *time_s > 0.001 || !inner.is_empty(),
+				_ => false,
+			};
+			if heavy {
+				continue;
+			}
+		}
 		// the lowest device rate of a program is 8000 Hz: a delay must stay >= 1 frame across rate changes
 		match f.known_trigger(8000) {
 			Some("C13.distortion_drive_silence") if ex.distortion_silence => {
@@ -419,9 +431,11 @@ fn gen_speed(r: &mut Rng, ex: &mut Excl) -> ClockSpeedSpec {
 }
 
 impl Program {
-	pub fn gen(r: &mut Rng, ex: &mut Excl, n_ops: usize) -> Program {
+	/// `small`: programs for interpreters that are ~10^4 x slower (Miri): tiny buffers and sounds, no reverb
+	pub fn gen(r: &mut Rng, ex: &mut Excl, n_ops: usize, small: bool) -> Program {
 		let sr = *r.pick(&[8000u32, 22050, 44100, 48000, 96000, 192000]);
-		let ibs = *r.pick(&[1usize, 2, 3, 7, 16, 64, 128, 333, 1024]);
+		let ibs = if small { *r.pick(&[1usize, 2, 3, 7]) } else { *r.pick(&[1usize, 2, 3, 7, 16, 64, 128, 333, 1024]) };
+		ex.small = small;
 		let cap = |r: &mut Rng| *r.pick(&[1usize, 2, 3, 8, 128]);
 		let caps = [cap(r), cap(r), cap(r), cap(r), cap(r)];
 		let mut ops = vec![];
@@ -486,6 +500,11 @@ impl Program {
 				24 => Op::MainVolume(ValSpec::gen(r, -30.0, 12.0, &[0.0, -60.0, 24.0]), TweenSpec::gen(r)),
 				25..=28 => {
 					let mut s = SoundX::gen(r, sr);
+					if small {
+						s.len = s.len.min(48);
+						s.slice = None;
+						s.lp = s.lp.filter(|(_, b)| *b <= s.len);
+					}
 					// boundary classes the property names: empty, inverted and out-of-range regions
 					if r.chance(0.04) {
 						if ex.bad_slice {
@@ -518,6 +537,11 @@ impl Program {
 						uses_streaming = true;
 						let mut s = SoundX::gen(r, sr);
 						s.reverse = false;
+						if small {
+							s.len = s.len.min(48);
+							s.slice = None;
+							s.lp = s.lp.filter(|(_, b)| *b <= s.len);
+						}
 						Op::PlayStreaming { track: if r.chance(0.6) { Some(r.below(8) as usize) } else { None }, s }
 					} else {
 						Op::Callback(r.usize_in(1, ibs * 3))
@@ -555,12 +579,12 @@ impl Program {
 				_ => Op::Callback(match r.below(4) {
 					0 => 1,
 					1 => ibs,
-					_ => r.usize_in(1, ibs * 3 + 3),
+					_ => r.usize_in(1, if small { 9 } else { ibs * 3 + 3 }),
 				}),
 			};
 			ops.push(op);
 		}
-		for _ in 0..6 {
+		for _ in 0..(if small { 2 } else { 6 }) {
 			ops.push(Op::Callback(r.usize_in(1, ibs * 2 + 1)));
 		}
 		Program {
